@@ -261,7 +261,7 @@ func (z *Set[K]) RevRank(value K) int {
 		return -1
 	}
 	// NOTE: list.Rank returns 1-based rank.
-	return z.list.Rank(score, value) - 1
+	return z.list.length - z.list.Rank(score, value)
 }
 
 // Count returns the number of elements in the sorted set at element with a score
